@@ -59,6 +59,20 @@ def run(ctx, chk):
                             # terminator when the token ends the line: the lookup then cites the next line.)
                             braces = [i for i, sy in enumerate(p["symbols"]) if sy["t"] == "term" and sy["name"].strip('"') == "}"]
                             want = ("L", braces[-1]) if braces else ("L", 0)
+                        li = getattr(a, "look_in", None)
+                        if look is None and li is not None and nt == "procedure":
+                            # the position comes from a wrapper nonterminal: it must be the start of a "}" terminal there
+                            inner_nt, (kind_, pos_) = li
+                            ip = GA.productions(inner_nt)[0]
+                            sy = ip["symbols"][pos_] if pos_ < len(ip["symbols"]) else None
+                            # the wrapper must be the last brace-bearing symbol of the procedure production
+                            if kind_ == "L" and sy is not None and sy["t"] == "term" and sy["name"].strip('"') == "}" and not braces:
+                                chk.ok("C16.R1", label, f"one push, entry at the start of the closing brace (through {inner_nt})")
+                                i += 2
+                                continue
+                            chk.violation("C16.R1", label, f"entry-position-{kind_}", f"{label}: the implied ret is mapped to @{kind_} of symbol {pos_} of {inner_nt}, not to the start of the closing brace", where)
+                            ok_ = False
+                            break
                         if look is None:
                             chk.violation("C16.R1", label, "entry-not-a-position", f"{label}: add_entry({seq[i + 1].arg_descs}) is not a lookaround position of this production", where)
                             ok_ = False
